@@ -278,6 +278,37 @@ for text in ["ATGAARTAA", "ATGAANTGA", "ATGANATAA", "NNN", "ATGRRRTAA", "ATGYTAA
                     lambda text=text, amb=amb, complete=complete: ambiguous_translation(text, amb, complete))
 
 
+def concat_alphabets(n_small, n_large, order):
+    """a + b over two alphabets one of which extends the other (sizes on both sides of the 256 / 65536 code-width
+    steps): the symbols of the sum are the symbols of a followed by those of b; unrelated alphabets are refused"""
+    small = seq.Alphabet([f"s{i}" for i in range(n_small)])
+    large = seq.Alphabet([f"s{i}" for i in range(n_small)] + [f"t{i}" for i in range(n_large - n_small)])
+    sa = [f"s{i}" for i in (0, n_small - 1, n_small // 2)]
+    sb = [large.get_symbols()[i] for i in (n_large - 1, 0, n_small, min(n_large - 1, 299), min(n_large - 1, 255), min(n_large - 1, 256))]
+    a, b = seq.GeneralSequence(small, sa), seq.GeneralSequence(large, sb)
+    x, y = (a, b) if order == "small + large" else (b, a)
+    got = x + y
+    exp = list(x.symbols) + list(y.symbols)
+    if list(got.symbols) != exp:
+        return f"symbols of the sum {list(got.symbols)} != {exp}"
+    if len(got.get_alphabet()) != n_large:
+        return f"the sum has an alphabet of {len(got.get_alphabet())} symbols"
+    if list(x.symbols) != (sa if x is a else sb) or list(y.symbols) != (sb if y is b else sa):
+        return "an operand was changed"
+    other = seq.GeneralSequence(seq.Alphabet([f"u{i}" for i in range(5)]), ["u1"])
+    try:
+        a + other
+    except ValueError:
+        return None
+    return "sequences over unrelated alphabets were concatenated"
+
+
+for n_small, n_large in ((3, 5), (200, 256), (200, 257), (200, 300), (256, 300), (257, 400), (4, 70000), (300, 65536), (300, 65537)):
+    for order in ("small + large", "large + small"):
+        R.check("sequence objects agree with their strings", "concatenation across alphabets", {"alphabet sizes": [n_small, n_large], "order": order},
+                lambda n_small=n_small, n_large=n_large, order=order: concat_alphabets(n_small, n_large, order))
+
+
 mapper_src, mapper_tgt = seq.NucleotideSequence.alphabet_unamb, seq.NucleotideSequence.alphabet_amb
 
 
